@@ -276,6 +276,8 @@ def run(ix, R):
     use(ix, R, table)
     cli_binner(ix, R)
     cli_final_model(ix, R)
+    with R.guard('3.custom.fresh', 'EFF', FA, 'custom files'):
+        custom_fresh(ix, R)
     # ---- 5. API
     api_obligations(ix, R, '5.api', [FA + '::get_keywordarg_dict', FA + '::create_klass', FA + '::determine_klass',
                                      FA + '::create_model', FA + '::generate_contributions',
@@ -669,6 +671,29 @@ def use(ix, R, table):
                                'the value given in the input file is ignored' % (c.name, k), loc=f.loc())
     if n < 100:
         R.error('4.use.count', 'USE', 'taurex', 'constructor keywords are found', 'found %d' % n)
+
+
+def custom_fresh(ix, R):
+    """3.custom.fresh: a `python_file` named in the input is executed and searched for its class every time it is asked
+    for - the result depends on that file only, not on what another section (or an earlier input file in the same process)
+    loaded under the same module name."""
+    site = FA + '::detect_and_return_klass'
+    f = ix.func(site)
+    fl = mkflow(ix, site)
+    stmt = 'a custom python_file is executed afresh for every request (no reuse keyed by a module name)'
+    ex = calls(fl, 'exec_module')
+    if len(ex) != 1:
+        R.error('3.custom.fresh', 'EFF', site, stmt, '%d exec_module calls' % len(ex), loc=f.loc())
+        return
+    why = []
+    gs = [g for g in ex[0].guards if not validated(g)]
+    if gs:
+        why.append('the file is executed only if %s' % ' and '.join(g.text()[:70] for g in gs))
+    reg = [e for e in fl.of('store') if 'sys.modules' in unparse(e.target_ast)]
+    if reg:
+        why.append('%s registers the module under a name that another file can share' % unparse(reg[0].node)[:60])
+    R.check('3.custom.fresh', 'EFF', site, stmt, not why, key='; '.join(w[:90] for w in why), detail='; '.join(why),
+            loc=f.loc(ex[0].node))
 
 
 def cli_final_model(ix, R):
